@@ -296,6 +296,19 @@ class GaussOpen(Gauss):
         return out
 
 
+class GaussOpenMixed(GaussOpen):
+    """As GaussOpen but the likelihood rewards leaving the box through the LOWER face of the first
+    axis and the UPPER face of the second (peaks at -1.25 and +1.25): whichever side a proposal
+    leaks through, the leaked points are the best ones."""
+
+    def log_likelihood(self, x):
+        out = np.zeros(x.size)
+        for i, n in enumerate(self.names):
+            c = -1.25 if i == 0 else 1.25
+            out = out + (x[n] - c) * (x[n] - c) * (-2.0)
+        return out
+
+
 class GW5(Model):
     """GW-named parameters with conventional bounds; priors: uniform in mass parameters,
     ra, psi; cosine in dec; Gaussian likelihood in rescaled coordinates.  Exists only to
@@ -394,6 +407,8 @@ def make(name="G2", **kw):
         return GaussZeros(2, **kw)
     if name == "G2edge":
         return GaussEdge(2, **kw)
+    if name == "G2openmix":
+        return GaussOpenMixed(2, **kw)
     if name == "G2open":
         return GaussOpen(2, **kw)
     if name == "GW5":
